@@ -336,6 +336,22 @@ def make_case(rng, i, tier):
         b, _ = gen.gen_wfsa(rng, nstates=rng.choice([1, 2, 3]), nsyms=len(syms), weights=W14)
     if rng.random() < 0.5:
         a, b = b, a
+    if rng.random() < 0.2:
+        # hand-chosen state names that LOOK like array indices but are not 0..n-1: a sentinel -1 next to 1-based numbers, booleans
+        def renamed(d):
+            qs = gen.wfsa_states(d)
+            if len(qs) == 2 and rng.random() < 0.5:
+                names = [common.enc_sym(False), common.enc_sym(True)]
+            else:
+                names = [-1] + list(range(1, len(qs)))
+            m = {json.dumps(q): names[k] for k, q in enumerate(qs)}
+            f = lambda q: m[json.dumps(q)]  # noqa
+            return {**d, "start": [[f(q), w] for q, w in d["start"]], "stop": [[f(q), w] for q, w in d["stop"]],
+                    "arcs": [[f(x), s_, f(y), w] for x, s_, y, w in d["arcs"]]}
+        a = renamed(a)
+        if rng.random() < 0.5:
+            b = renamed(b)
+        kind += "+index_like_names"
     allsyms = sorted({e[1] for d in (a, b) for e in d["arcs"] if e[1] != ""}) or syms
     xs = gen.all_strings(allsyms, 2 if len(allsyms) > 1 else 3)
     syms = allsyms
